@@ -246,14 +246,19 @@ def k_via_align(run, case):
         o_ref = gen.make_evo(a_ref, mode, stamped=False)
         o_est = gen.make_evo(a_est, mode, stamped=False)
         before = gen.read_views(gen.make_evo(a_est, mode, stamped=False))
-        out = contracts.outcome_of(o_est.align, o_ref, cs, only, -1)
+        ne, nr = len(a_est["p"]), len(a_ref["p"])
+        # n = -1 (all poses) or an explicit n lying between / beyond the two lengths: the point
+        # sets handed to the alignment are the first n poses of each - unequal whenever n exceeds
+        # the shorter one
+        n_arg = -1 if rng.random() < .5 else int(rng.integers(min(ne, nr) + 1, max(ne, nr) + 4))
+        out = contracts.outcome_of(o_est.align, o_ref, cs, only, gen.spell_int(rng, n_arg))
         after = gen.read_views(o_est)
-        run.seen(case, core.digest(a_ref["p"], a_est["p"], "unequal"), cls=["via PosePath3D.align: unequal sizes"],
-                 sample={"n_est": len(a_est["p"]), "n_ref": len(a_ref["p"]), "outcome": out[0]})
+        run.seen(case, core.digest(a_ref["p"], a_est["p"], "unequal", n_arg), cls=["via PosePath3D.align: unequal sizes"],
+                 sample={"n_est": ne, "n_ref": nr, "n": n_arg, "outcome": out[0]})
         run.check(out[0] == "exc" and isinstance(out[1], GeometryException),
                   "align refuses point sets of unequal size", case,
-                  "align(n=-1) of %d poses to %d poses was not refused with GeometryException: %r" %
-                  (len(a_est["p"]), len(a_ref["p"]), out[1] if out[0] == "exc" else "returned a result"),
+                  "align(n=%d) of %d poses to %d poses was not refused with GeometryException: %r" %
+                  (n_arg, ne, nr, out[1] if out[0] == "exc" else "returned a result"),
                   key="umeyama@align:shape-not-refused")
         run.check(core.bits_equal(after["p"], before["p"]) and core.bits_equal(after["T"], before["T"]),
                   "refused alignment leaves the estimate untouched", case, "estimate changed by a refused alignment",
